@@ -35,7 +35,9 @@ type guard struct {
 }
 
 // guardsIn collects the validation guards of a handler with the edge taken when validation fails.
-func guardsIn(w *load.World, f *ssa.Function) []guard {
+func guardsIn(w *load.World, f *ssa.Function) []guard { return guardsInN(w, f, 0) }
+
+func guardsInN(w *load.World, f *ssa.Function, depth int) []guard {
 	var gs []guard
 	errGuard := func(name string, call *ssa.Call, errIdx int) {
 		ev := resultValue(call, errIdx)
@@ -67,12 +69,27 @@ func guardsIn(w *load.World, f *ssa.Function) []guard {
 					errGuard("ValidateSchema", call, 0)
 				case strings.HasSuffix(k, "msgpack/v5.Marshal"):
 					errGuard("Marshal", call, 1)
+				default:
+					// a helper of the handler that performs checks and reports their failure as an error
+					if depth == 0 && ssax.InModule(g) && strings.Contains(load.PkgPath(g), "/httpapi") && res.Len() > 0 && isErrorType(res.At(res.Len()-1).Type()) {
+						for _, ig := range guardsInN(w, g, 1) {
+							if failEdgeReturnsError(g, ig.failEdge) {
+								errGuard(ig.name, call, res.Len()-1)
+							}
+						}
+					}
 				}
 			}
 		}
 		if ifi, ok := b.Instrs[len(b.Instrs)-1].(*ssa.If); ok {
 			if bo, ok := ifi.Cond.(*ssa.BinOp); ok {
 				ox, oy := ssax.Prov(bo.X), ssax.Prov(bo.Y)
+				if deepHas(w, bo.X, "field:MaxPointSize") {
+					ox["field:MaxPointSize"] = true
+				}
+				if deepHas(w, bo.Y, "field:MaxPointSize") {
+					oy["field:MaxPointSize"] = true
+				}
 				switch {
 				case (ox["field:MaxPointSize"] || oy["field:MaxPointSize"]) && (bo.Op == token.GTR || bo.Op == token.GEQ):
 					gs = append(gs, guard{"MaxPointSize", ssax.Edge{From: b, Succ: 0}, w.At(ifi)})
@@ -98,7 +115,7 @@ func Valid(w *load.World, c *core.Collector) {
 				}
 				nBody++
 				key := "body-access:" + load.FnKey(f)
-				if strings.HasPrefix(load.FnKey(f), "httpapi/utils.DecodeValid") {
+				if strings.HasPrefix(load.FnKey(f), "httpapi/utils.DecodeValid") || onlyServesDecodeValid(w, f, 0) {
 					c.Add("VALID", key, core.OK, w.At(in), "", props...)
 				} else {
 					c.Add("VALID", key, core.Violation, w.At(in), "the request body is read outside DecodeValid: the decoded value would bypass Validate()", props...)
@@ -262,6 +279,10 @@ func concatOperandsN(v ssa.Value, depth int) []ssa.Value {
 			}
 		}
 	case *ssa.Call:
+		// append(prefix, rest...) concatenates byte strings
+		if bi, ok := x.Call.Value.(*ssa.Builtin); ok && bi.Name() == "append" && len(x.Call.Args) == 2 {
+			return append(concatOperandsN(x.Call.Args[0], depth), concatOperandsN(x.Call.Args[1], depth)...)
+		}
 		g := x.Call.StaticCallee()
 		if g == nil || depth > 2 || !ssax.InModule(g) {
 			break
@@ -362,7 +383,15 @@ func Tenant(w *load.World, c *core.Collector) {
 				}
 				n++
 				key := fmt.Sprintf("key:%s@%s", m, load.FnKey(f))
-				if migration(f) {
+				fromRecords := false
+				if len(call.Call.Args) > 0 {
+					for k := range provDeep(w, call.Call.Args[0]) {
+						if strings.HasSuffix(k, "field:KeyValues") {
+							fromRecords = true // the keys of a batch of records that is being moved as it is
+						}
+					}
+				}
+				if migration(f) || fromRecords {
 					c.Add("TENANT", key, core.Exception, w.At(in), "start-up migration moves records under the keys they already have", props...)
 					continue
 				}
@@ -431,12 +460,29 @@ func Tenant(w *load.World, c *core.Collector) {
 					continue
 				}
 				nDir++
-				o := ssax.Prov(arg)
 				key := fmt.Sprintf("dir:%s@%s", g.Name(), load.FnKey(f))
-				if o["field:UserId"] && o["field:Id"] && o.HasPrefix("call:path/filepath.Join") {
+				// a path (or a part of it) handed in as a parameter is judged where it is built: provenance
+				// follows parameters to the call sites
+				built := deepHas(w, arg, "field:UserId") && deepHas(w, arg, "field:Id")
+				joined := false
+				for k := range provDeep(w, arg) {
+					if strings.Contains(k, "call:path/filepath.Join") {
+						joined = true
+					}
+				}
+				built = built && joined
+				comp := transformedUserComponent(arg, 0)
+				for _, pv := range paramsIn(arg, 0) {
+					for _, sv := range argSources(w, pv, 0) {
+						if cpt := transformedUserComponent(sv, 0); cpt != "" {
+							comp = cpt
+						}
+					}
+				}
+				if built {
 					// and the user id enters the path as it is: a component computed from it (sanitised,
 					// truncated, hashed) lets distinct ids share a directory
-					if comp := transformedUserComponent(arg, 0); comp != "" {
+					if comp != "" {
 						c.Add("TENANT", key, core.Violation, w.At(in), "the user id does not enter the directory path as it is but through "+comp+": distinct user ids can map to the same directory", props...)
 					} else {
 						c.Add("TENANT", key, core.OK, w.At(in), "", props...)
@@ -753,4 +799,136 @@ func returnsJoinedPath(g *ssa.Function, depth int) bool {
 		}
 	}
 	return n > 0
+}
+
+// argSources: the values a parameter stands for at the static call sites of its
+// function (the value itself when it is not a parameter).
+func argSources(w *load.World, v ssa.Value, depth int) []ssa.Value {
+	p, ok := v.(*ssa.Parameter)
+	if !ok || depth > 2 {
+		return []ssa.Value{v}
+	}
+	f := p.Parent()
+	idx := -1
+	for i, q := range f.Params {
+		if q == p {
+			idx = i
+		}
+	}
+	var out []ssa.Value
+	for _, g := range w.Fns {
+		for _, b := range g.Blocks {
+			for _, in := range b.Instrs {
+				ci, ok := in.(ssa.CallInstruction)
+				if !ok || ci.Common().StaticCallee() != f || idx >= len(ci.Common().Args) {
+					continue
+				}
+				out = append(out, argSources(w, ci.Common().Args[idx], depth+1)...)
+			}
+		}
+	}
+	if len(out) == 0 {
+		return []ssa.Value{v}
+	}
+	return out
+}
+
+// paramsIn: the parameters that occur in the expression that computes v (through calls, conversions, concatenations).
+func paramsIn(v ssa.Value, depth int) []ssa.Value {
+	if depth > 4 {
+		return nil
+	}
+	switch x := v.(type) {
+	case *ssa.Parameter:
+		return []ssa.Value{x}
+	case *ssa.Call:
+		var out []ssa.Value
+		for _, a := range x.Call.Args {
+			out = append(out, paramsIn(a, depth+1)...)
+		}
+		return out
+	case *ssa.Convert:
+		return paramsIn(x.X, depth+1)
+	case *ssa.BinOp:
+		return append(paramsIn(x.X, depth+1), paramsIn(x.Y, depth+1)...)
+	case *ssa.Slice:
+		// variadic argument list: the stored elements
+		if al, ok := x.X.(*ssa.Alloc); ok {
+			var out []ssa.Value
+			for _, r := range *al.Referrers() {
+				if ia, ok := r.(*ssa.IndexAddr); ok {
+					for _, rr := range *ia.Referrers() {
+						if st, ok := rr.(*ssa.Store); ok {
+							out = append(out, paramsIn(st.Val, depth+1)...)
+						}
+					}
+				}
+			}
+			return out
+		}
+	}
+	return nil
+}
+
+// failEdgeReturnsError: every return reachable from the failing edge yields a non-nil error.
+func failEdgeReturnsError(g *ssa.Function, e ssax.Edge) bool {
+	start := e.From.Succs[e.Succ]
+	seen := map[*ssa.BasicBlock]bool{}
+	ok := true
+	found := false
+	var dfs func(b *ssa.BasicBlock)
+	dfs = func(b *ssa.BasicBlock) {
+		if seen[b] {
+			return
+		}
+		seen[b] = true
+		if ret, isRet := b.Instrs[len(b.Instrs)-1].(*ssa.Return); isRet {
+			found = true
+			n := len(ret.Results)
+			if n == 0 || !isErrorType(ret.Results[n-1].Type()) || ssax.IsNilConst(ssax.ReturnOperand(ret, n-1)) {
+				ok = false
+			}
+			return
+		}
+		for _, s := range b.Succs {
+			dfs(s)
+		}
+	}
+	dfs(start)
+	return ok && found
+}
+
+// onlyServesDecodeValid: f (or the function that contains the literal f) is an
+// unexported helper whose every static call site lies in DecodeValid or in
+// another such helper.
+func onlyServesDecodeValid(w *load.World, f *ssa.Function, depth int) bool {
+	root := f
+	for root.Parent() != nil {
+		root = root.Parent()
+	}
+	if strings.HasPrefix(load.FnKey(root), "httpapi/utils.DecodeValid") {
+		return true
+	}
+	if depth > 2 || !strings.HasSuffix(load.PkgPath(root), "/httpapi/utils") {
+		return false
+	}
+	if n := root.Name(); n == "" || n[0] < 'a' || n[0] > 'z' {
+		return false
+	}
+	sites := 0
+	for _, g := range w.Fns {
+		for _, b := range g.Blocks {
+			for _, in := range b.Instrs {
+				ci, ok := in.(ssa.CallInstruction)
+				if !ok || ci.Common().StaticCallee() != root {
+					continue
+				}
+				sites++
+				if !onlyServesDecodeValid(w, g, depth+1) {
+					return false
+				}
+			}
+		}
+	}
+	return sites > 0
 }
